@@ -272,6 +272,7 @@ def c01(run):
     run.batch("option-product", opts, "asan")
     run.batch("wide-and-tall", wide_tu_ops(rng, 400 if quick else 6000, 0), "plain")
     run.batch("structured", structured_ops(rng, 1500 if quick else 20000, kinds=("tu", "tuall", "tusigned")), "plain")
+    run.batch("not-tu-by-construction", irregular_constructed_ops(rng, 10000 if quick else 150000, kinds=("tu",)), "plain")
     return dict(rule="structured: representations (pivots, scalings, permutations, parallel/unit extensions) of R10 and R12 and their "
                 "one-entry corruptions, delta-sums of graphic and cographic pieces Camion-signed by the library (TU by construction: "
                 "Seymour + Camion; verdicts must also agree across all five decomposition strategies and, up to 10x10, with the eulerian "
@@ -351,6 +352,7 @@ def c02(run):
     run.batch("option-product", opts, "asan")
     run.batch("structured", structured_ops(rng, 1500 if quick else 20000, kinds=("regular", "tusigned")), "plain")
     run.batch("regular-by-construction", regular_constructed_ops(rng, 60000 if quick else 600000), "plain")
+    run.batch("irregular-by-construction", irregular_constructed_ops(rng, 8000 if quick else 150000, kinds=("regular",)), "plain")
     return dict(rule="structured: representations of R10/R12 supports and delta-sums of graphic and cographic pieces (regular by Seymour's "
                 "theorem, neither graphic nor cographic in general, beyond the oracle's size: verdict by construction, and equal to the TU "
                 "verdict of the library's Camion signing); exhaustive: all 0/1 matrices up to 4x4 (thorough: up to 4x5/5x4) with default parameters; seeded 5x5..6x6 0/1 matrices "
@@ -601,6 +603,8 @@ def c06(run):
             mt = mat_tokens(m, n, e)
             lines.append("network 0 1 1 %s" % mt)
             lines.append("network 1 1 1 %s" % mt)
+            if m >= 2 and n >= 2:
+                lines.append("network %d 0 2 %s" % (rng.randint(0, 1), mt))      # submatrix requested, optional support flag not
     run.batch("exhaustive-small", lines, "plain")
     more = []
     # all signings of 0/1 supports 4x4 (sampled supports), both entry points
@@ -609,7 +613,7 @@ def c06(run):
         s = rand_mat(rng, m, n, (1,), rng.choice((0.4, 0.6)))
         for _ in range(6):
             e = [x * rng.choice((1, -1)) for x in s]
-            more.append("network %d 1 1 %s" % (rng.randint(0, 1), mat_tokens(m, n, e)))
+            more.append("network %d 1 %d %s" % (rng.randint(0, 1), rng.choice((1, 1, 2)), mat_tokens(m, n, e)))
     for (m, n, e) in graph_instances(rng, 400 if quick else 5000, 14, True):
         more.append("network 0 1 1 %s" % mat_tokens(m, n, e))
         if m * n:
@@ -638,10 +642,11 @@ def c06(run):
         elif x < 0.4:
             k = rng.randrange(m * n); e[k] = rng.choice([v for v in (-1, 0, 1) if v != e[k]])
             w = ""
+        ws = rng.choice((0, 1, 2))           # 2: violating submatrix requested without the optional support flag
         if rng.random() < 0.5:
-            glued.append("%snetwork 0 1 %d %s" % (w, rng.randint(0, 1), mat_tokens(m, n, e)))
+            glued.append("%snetwork 0 1 %d %s" % (w, ws, mat_tokens(m, n, e)))
         else:
-            glued.append("%snetwork 1 1 %d %s" % (w, rng.randint(0, 1), mat_tokens(n, m, [e[i * n + j] for j in range(n) for i in range(m)])))
+            glued.append("%snetwork 1 1 %d %s" % (w, ws, mat_tokens(n, m, [e[i * n + j] for j in range(n) for i in range(m)])))
     run.batch("glued-3-connected-digraphs", glued, "plain")
     return dict(rule="network matrices of digraphs glued from 3-connected graphs, K4s, cycles and bonds with wrong signs / corrupted entries; "
                 "exhaustive: every {-1,0,1} matrix up to 3x3 (thorough 3x4, 4x<=3) through CMRnetworkTestMatrix and CMRnetworkTestTranspose "
@@ -1333,6 +1338,18 @@ def tree_ops(run):
     run.batch("sums-of-blocks", big, "asan")
     run.batch("structured-with-trees", structured_ops(rng, 500 if quick else 8000, kinds=("tu", "regular"), want_bits=WANT_TREE), "plain")
     run.batch("regular-by-construction-with-trees", regular_constructed_ops(rng, 3000 if quick else 40000, want_bits=WANT_TREE), "plain")
+    run.batch("irregular-by-construction-with-trees", irregular_constructed_ops(rng, 2000 if quick else 30000, want_bits=WANT_TREE), "plain")
+    # graphic / cographic by construction, decomposed along the nested-minor sequence (directGraphicness off): the root may not claim
+    # the opposite of what the construction guarantees
+    seqg = []
+    for _ in range(3000 if quick else 40000):
+        m, n, e = glued_cycle_matrix(rng, rng.choice((1, 2, 2, 3)))
+        mask = ((DEFAULT_MASK | strategy(rng.randrange(5)) | WANT_TREE) & ~3 & ~B_TERNARY & ~B_DIRECT)
+        if rng.random() < 0.5:
+            seqg.append("@root-graphic=yes @want=yes regular %d %s" % (mask, mat_tokens(m, n, e)))
+        else:
+            seqg.append("@root-cographic=yes @want=yes regular %d %s" % (mask, mat_tokens(n, m, [e[i * n + j] for j in range(n) for i in range(m)])))
+    run.batch("graphic-by-construction-sequence-mode", seqg, "plain")
     hist = []
     for _ in range(300 if quick else 6000):
         ternary = rng.randint(0, 1)
@@ -1924,6 +1941,42 @@ def regular_constructed_ops(rng, count, want_bits=0, lo=3, hi=7):
         m, n = len(M), len(M[0])
         mask = ((DEFAULT_MASK | rng.choice(strategies) | want_bits) & ~3) & ~B_TERNARY
         ops.append("@want=yes regular %d %s" % (mask, mat_tokens(m, n, flat_of(M))))
+    return ops
+
+
+def irregular_constructed_ops(rng, count, kinds=("regular", "tu"), want_bits=0):
+    """matrices that are NOT regular / NOT totally unimodular by construction: a 1- or 2-sum (connecting line nonzero, so both
+    operands are minors up to line scaling) of a regular / TU piece with F7, its dual or a signed wheel with determinant 2, in a
+    random representation (pivots, scalings, permutation preserve the class and its complement)"""
+    ops = []
+    strategies = [strategy(i) for i in range(5)]
+    while len(ops) < count:
+        kind = rng.choice(kinds)
+        signed = kind == "tu"
+        if signed:
+            bad = rng.choice(([[1, 1, 0], [0, 1, 1], [1, 0, 1]], [[1, 1], [-1, 1]], [[1, 1, 0], [0, -1, 1], [1, 0, -1]], [r[:] for r in F7]))    # each has a submatrix of determinant +-2
+            good = net_piece(rng, True, 3, 7) if rng.random() < 0.7 else [r[:] for r in R10_TU]
+        else:
+            bad = rng.choice(([r[:] for r in F7], [list(c) for c in zip(*F7)]))
+            good = regular_by_construction(rng, 3, 6, 1) if rng.random() < 0.5 else net_piece(rng, False, 3, 7)
+        A, B = (good, bad) if rng.random() < 0.5 else (bad, good)
+        if rng.random() < 0.3 or len(A) < 2 or len(B[0]) < 2:
+            M = onesum_rows(A, B)
+        else:
+            nzr = [i for i, r in enumerate(A) if any(r)]
+            nzc = [j for j in range(len(B[0])) if any(r[j] for r in B)]
+            if not nzr or not nzc:
+                continue
+            i = rng.choice(nzr); A = A[:i] + A[i + 1:] + [A[i]]
+            j = rng.choice(nzc); B = [[r[j]] + r[:j] + r[j + 1:] for r in B]
+            M = twosum_rows(A, B, signed)
+        M = represent(rng, M, signed, rng.choice((0, 1, 2, 3)))
+        m, n = len(M), len(M[0])
+        mask = ((DEFAULT_MASK | rng.choice(strategies) | want_bits) & ~3)
+        if kind == "tu":
+            ops.append("@want=no tu %d %s" % (mask | B_TERNARY, mat_tokens(m, n, flat_of(M))))
+        else:
+            ops.append("@want=no regular %d %s" % (mask & ~B_TERNARY, mat_tokens(m, n, flat_of(M))))
     return ops
 
 
